@@ -188,7 +188,7 @@ def make_judges(ctx):
 
 def floors(tier):
     cells = [('rel', m, 'bound') for m in G.ROUNDINGS] + [('rel', 'around', 'tie-even')]
-    cells += [('monotone', m) for m in G.ROUNDINGS] + [('idempotent-noflag', m) for m in G.ROUNDINGS] + [('idempotent-indexed',), ('restore-int',), ('idempotent-like-flagged-template',), ('wide-fixed-point-input',), ('restore-after-raw-route',)]
+    cells += [('monotone', m) for m in G.ROUNDINGS] + [('idempotent-noflag', m) for m in G.ROUNDINGS] + [('idempotent-indexed',), ('restore-int',), ('idempotent-like-flagged-template',), ('wide-fixed-point-input',), ('restore-after-raw-route',), ('contract-through-view',), ('contract-after-resize',)]
     return cells
 
 
@@ -299,6 +299,50 @@ def run_case(case, ctx):
             Fxp(np.array([float(v) for v in own]), like=tmpl)
             Fxp([float(own[0]), float(own[-1])], like=tmpl)
             ctx.floor_hit(('idempotent-like-flagged-template',))
+    except Exception:
+        pass
+    # the contracts hold for the value that ends up in the object whatever the route: (a) written through an element / row object obtained by indexing
+    # (x[i][j] = v: the object that performs the store is the view, the modes are x's), (b) an object's own value re-quantized by a resize that gives up
+    # fraction bits.  Workload-level comparison with the model (the store event of (a) only sees the view)
+    try:
+        lo_c, hi_c = R.code_range(s, w)
+        x2 = Fxp(np.zeros((2, 3)), s, w, nf, rounding=r, overflow=o)
+        cands = [v for v in G.hostile_scaled_values(rng, s, w, nf, n=12) if G.can_carry(v, 'pyfloat') and abs(v) < 2 ** 52 and abs(v * F(2) ** nf) < 2 ** 61]
+        cands = [v for v in cands if lo_c + 1 <= v * F(2) ** nf <= hi_c - 1][:3]
+        for jj, v in enumerate(cands):
+            if jj % 2 == 0:
+                x2[1][jj] = float(v)
+            else:
+                row = x2[0]
+                row[jj] = float(v)
+            want = R.quantize(v, s, w, nf, r, o)[0]
+            got = int(np.asarray(x2.val, dtype=object)[1 if jj % 2 == 0 else 0][jj])
+            if got != want:
+                ctx.violation('relation', '%s %s/%s: x[i][j] = %s stored code %d in x, the %s contract gives %d' % (R.dtype_fxp(s, w, nf), r, o, float(v), got, r, want), key='relation.through_view')
+            ctx.judged(('through-view', r, o), True, None)
+            ctx.floor_hit(('contract-through-view',))
+        up = rng.randint(1, 4)
+        if w + up <= 52 and -8 <= nf + up <= w + up + 8:
+            lo_w, hi_w = R.code_range(s, w + up)
+            ks = [rng.randint(lo_c + 1, hi_c - 1) * 2 ** up + rng.choice([1, -1, 2 ** (up - 1), -(2 ** (up - 1)), rng.randint(-(2 ** up) + 1, 2 ** up - 1)]) for _ in range(4)] if hi_c - lo_c >= 2 else []
+            ks = [k_ for k_ in ks if lo_w <= k_ <= hi_w]
+            if ks:
+                x3 = Fxp(np.array(ks), s, w + up, nf + up, raw=True, rounding=r, overflow=o)
+                how = rng.choice(['sizes', 'n_frac', 'dtype'])
+                if how == 'sizes':
+                    x3.resize(s, w, nf)
+                elif how == 'n_frac':
+                    x3.resize(n_frac=nf)
+                else:
+                    x3.resize(dtype=R.dtype_fxp(s, w, nf))
+                wf = (s, w if how != 'n_frac' else w + up, nf)
+                want = [R.quantize(F(k_) / F(2) ** (nf + up), wf[0], wf[1], wf[2], r, o)[0] for k_ in ks]
+                got = [int(c_) for c_ in np.asarray(x3.val, dtype=object).ravel().tolist()]
+                if (x3.signed, x3.n_word, x3.n_frac) == wf and got != want:
+                    ctx.violation('relation', '%s -> %s %s/%s by resize(%s): codes %s became %s, the %s contract gives %s' % (
+                        R.dtype_fxp(s, w + up, nf + up), R.dtype_fxp(*wf), r, o, how, ks, got, r, want), key='relation.resize')
+                ctx.judged(('resize-drops-fraction-bits', r, o, how), True, None)
+                ctx.floor_hit(('contract-after-resize',))
     except Exception:
         pass
     # inputs given as fixed-point values with more fraction bits than the destination (both signednesses)
